@@ -47,8 +47,14 @@ package bufanalysis
 //@   property C20
 //@   modifies ghost.buf
 //@   reveal ghaLine, ghaPos, pathOf, pluginSuffix
+//@   use w_decimal-one-line
 //@   ensures err == nil
 //@   ensures format: f != nil ==> ghost.buf == put(old(ghost.buf), buffer, old(ghost.buf)[buffer] + ghaLine(f))
+// (ca-W) "the machine-readable formats stay well-formed for any message text": a workflow command is ONE line, so a record
+// must not introduce a line break whatever the message, plugin name or path are (printEachAnnotationOnNewLine resets the
+// line buffer before each record and ends it with "\n"). Failed before the repair that introduced githubActionsEscapeData
+// (Message() == "a\n::error file=x::b" was rendered as two workflow commands).
+//@   ensures one-line-per-record: f != nil && !contains(old(ghost.buf)[buffer], "\n") ==> !contains(ghost.buf[buffer], "\n")
 //@   ensures f == nil ==> ghost.buf == old(ghost.buf)
 //
 //@ func newExternalFileAnnotation(f) (r)
@@ -70,8 +76,30 @@ package bufanalysis
 // JUnit names each test suite after the same file path the other formats print (minus ".proto").
 //@ func printAsJUnit(writer, fileAnnotations) (err)
 //@   property C20
-//@   modifies heap, ghost.fail, ghost.wfail, ghost.buf
+//@   modifies heap, ghost.fail, ghost.wfail, ghost.buf, ghost.w_ncases, ghost.w_cases
 //@   reveal pathOf
+// (ca-W) structure: one <testsuite> per path group in the order of groupAnnotationsByPath (first-seen order, verified for C02),
+// announcing as many tests/failures as the group has annotations; inside it one <testcase> per annotation of the group, in
+// order (ghost.w_cases, see printFileAnnotationAsJUnit; w_offset: /verif/specs/C19_C20_extra.spec). So when the closing tag is
+// reached the test cases are exactly the elements of the groups, group by group (assert cases-are-the-groups-in-order), and
+// every encoder/writer failure is returned. That every annotation sits in exactly one group slot is
+// groupAnnotationsByPath#post[in-own-group] / [group-size] (C02); the two are not composed into one clause here because
+// that contract does not state 0 <= k_countKey(..), which the composition needs.
+//@   use w_offset-step, w_offset-zero
+//@   assert before "if err := encoder.EncodeToken(testsuite)" suite-announces-its-annotations: len(testsuite.Attr) == 4 && testsuite.Attr[0].Value == path && testsuite.Attr[1].Name.Local == "tests" && testsuite.Attr[1].Value == decimal(len(annotations)) && testsuite.Attr[2].Name.Local == "failures" && testsuite.Attr[2].Value == decimal(len(annotations)) && testsuite.Attr[3].Value == "0"
+//@   assert before "if err := encoder.EncodeToken(xml.EndElement{Name: testsuites.Name})" cases-are-the-groups-in-order: ghost.w_ncases == old(ghost.w_ncases) + w_offset(annotationsByPath, len(annotationsByPath)) && (forall g int, a int :: 0 <= g && g < len(annotationsByPath) && 0 <= a && a < len(annotationsByPath[g]) ==> ghost.w_cases[old(ghost.w_ncases) + w_offset(annotationsByPath, g) + a] == annotationsByPath[g][a])
+//@   ensures failure-reported: ghost.fail && !old(ghost.fail) ==> err != nil
+//@   ensures earlier-cases-untouched: forall c int :: c < old(ghost.w_ncases) ==> ghost.w_cases[c] == old(ghost.w_cases)[c]
+//@   loop 0 invariant w-nofail: ghost.fail == old(ghost.fail)
+//@   loop 0 invariant w-count: ghost.w_ncases == old(ghost.w_ncases) + w_offset(annotationsByPath, $i)
+//@   loop 0 invariant w-placed: forall g int, a int :: 0 <= g && g < $i && 0 <= a && a < len(annotationsByPath[g]) ==> ghost.w_cases[old(ghost.w_ncases) + w_offset(annotationsByPath, g) + a] == annotationsByPath[g][a]
+//@   loop 0 invariant w-bounded: w_offset(annotationsByPath, $i) >= 0 && (forall g int :: 0 <= g && g < $i ==> w_offset(annotationsByPath, g) >= 0 && w_offset(annotationsByPath, g) + len(annotationsByPath[g]) <= w_offset(annotationsByPath, $i))
+//@   loop 0 invariant w-frame: forall c int :: c < old(ghost.w_ncases) ==> ghost.w_cases[c] == old(ghost.w_cases)[c]
+//@   loop 1 invariant w-nofail: ghost.fail == old(ghost.fail)
+//@   loop 1 invariant w-count: ghost.w_ncases == old(ghost.w_ncases) + w_offset(annotationsByPath, $i0) + $i1
+//@   loop 1 invariant w-placed: forall g int, a int :: 0 <= g && g <= $i0 && 0 <= a && a < ite(g == $i0, $i1, len(annotationsByPath[g])) ==> ghost.w_cases[old(ghost.w_ncases) + w_offset(annotationsByPath, g) + a] == annotationsByPath[g][a]
+//@   loop 1 invariant w-bounded: w_offset(annotationsByPath, $i0) >= 0 && (forall g int :: 0 <= g && g < $i0 ==> w_offset(annotationsByPath, g) >= 0 && w_offset(annotationsByPath, g) + len(annotationsByPath[g]) <= w_offset(annotationsByPath, $i0))
+//@   loop 1 invariant w-frame: forall c int :: c < old(ghost.w_ncases) ==> ghost.w_cases[c] == old(ghost.w_cases)[c]
 //@   assert before "testsuite := xml.StartElement" same-file-as-other-formats: path == ite(hasSuffix(pathOf(annotations[0]), ".proto"), substr(pathOf(annotations[0]), 0, len(pathOf(annotations[0])) - 6), pathOf(annotations[0]))
 //
 // C02: the comparison used to sort annotations is exactly the documented lexicographic order
